@@ -24,7 +24,7 @@ func init() {
 	fw.Register(&fw.Prop{
 		ID: "C09",
 		Rule: "hostile-argument monitor: every public entry point (7 constructors, Concat, BackPropagate, all Tensor methods; component constructors and Forward/Compute/Accumulate/Result/Update/Init/Weights) is called under recover() with: every integer of [-2,6] for each dim/n/size argument against a pool of 60 receiver shapes of rank 0..5; dims/shape lists of length 0..5 over [-2,6] (exhaustive to length 2, sampled above) and nil; At indexes of length 0..rank+1; Slice/Patch ranges with From,To in [-2,6] (all 81 per dimension for rank <= 2, sampled above), nil and over-long indexes; nil / foreign / every-other-pool-shape tensor operands; rectangular, ragged-at-every-level, empty-at-every-level and nil nested data of depth 1..4; nil / zero / negative / NaN configuration values; initializers returning nil, errors or wrongly shaped tensors. " +
-			"Oracle: a panic is a violation; the reference precondition predicate decides whether an error (with a nil result) or a result (nil error, Shape = the defined shape, NElems = its product) is required. Non-trivial: every call is (the space is the argument space); distinct = (entry point, argument class, outcome class).",
+			"Oracle: a panic is a violation; the reference precondition predicate decides whether an error (with a nil result) or a result (nil error, Shape = the defined shape, NElems = its product) is required. Non-trivial: every call is (the space is the argument space); distinct = (entry point, argument class, outcome class). Later addition: BackPropagate called again over graphs that were already back-propagated (root twice, interior then root then leaf, two heads then the first again) for 40+ single-operation graphs: any outcome but a panic.",
 		Assumptions: []string{
 			"where the documentation fixes no outcome (foreign Tensor implementations handed to component entry points) only 'no panic' is demanded",
 			"a child process logs the case index before executing it, so a fatal runtime error still names its witness",
